@@ -710,6 +710,20 @@ def rebuild_order(prog, an, rep):
                     x.func.attr == 'remove' for x in ast.walk(lp))]
     qlist = {src(lp.iter) for lp in rm_loops}
     eb = an.branch_nodes(f, lambda e: src(e) in qlist, False, expand=None)
+    # the queues are left alone only when there is none: the job ends well
+    # without deleting only past the "no q/ branch" test
+    heads = [c.stmt_node[id(lp)] for lp in rm_loops]
+    for n in c.nodes.values():
+        if n.kind == 'raise_stmt' and (raise_class(an, f, n.ast) or
+                                       '').endswith('.JobSuccess'):
+            rep.evaluated()
+            ok, path = c.must_pass(eb + heads, n.id)
+            rep.check(ok and bool(eb), R, f.qname + ': ends without '
+                      'deleting only when there is no q/ branch', f.where(n),
+                      'the job can report success with the q/ branches '
+                      'still there (the test that skips the deletion does '
+                      'not look at the list of q/ branches)',
+                      path=c.describe_path(path))
     for b in eb:
         first = _first_exit(an, f, c, b)
         rep.check(first is not None and first[0] == 'raise' and
